@@ -322,3 +322,17 @@ def norm_mem_start(texts, v):
             seen.add(t)
         res.append(t)
     return res
+
+
+def _shared(ctx, rep, tier):
+    rep.rule("C12.h", "zero-length-input support only adds the entry test; without the flag the test is still emitted whenever a transition may return early (shared with C02.d)")
+    from .c02 import check_needs_end_check
+    check_needs_end_check(ctx, rep, "C12.h")
+
+
+_run0 = run
+
+
+def run(ctx, rep, tier):
+    _run0(ctx, rep, tier)
+    _shared(ctx, rep, tier)
